@@ -174,7 +174,7 @@ structure changes `acquireIR` and this obligation stops checking. -/
 theorem acquire_regenerated_from_source (p : Policy) (s : RL) (now count : Int) :
     Gen.FactsC09IR.extractionFailed = false ∧
       Gen.FactsC09IR.acquireIR p s now count false = acquire p s now count :=
-  ⟨by decide, acquireIR_eq_model p s now count⟩
+  ⟨by decide, RateLimiter.acquire_regenerated_from_source p s now count⟩
 
 /-- Facts obligation (regenerated from the source on every run): the modelled function is
 one critical section under the limiter's mutex with a single clock read, so concurrent
